@@ -201,19 +201,39 @@ UNIT = dict(
     # scan / ~thread_data: real text of scan, for_each loop, iterator, is_active, gather, try_get_*, adopt/abandon, release_entry, abandon; reclaim_nodes by contract
     dict(id='hp_scan', entry='h_scan', defs=dict(XV_ABS_VEC=1, XV_E=3, XV_K=3, XV_L=3, XV_LA=2), unwindset=unw(3, 3, 3, 2, 'hp'), cls='shape-complete', timeout=900,
          note='SEQ: <=3 entries x 3 slots (every state / slot word), 0..3 retired + 0..2 abandoned nodes'),
-    dict(id='hp_scan_int', entry='h_scan_int', mode='INT', defs=dict(XV_ABS_VEC=1, XV_E=3, XV_K=3, XV_L=3, XV_LA=2), unwindset=unw(3, 3, 3, 2, 'hp'), cls='shape-complete', timeout=900,
+    dict(id='hp_scan_int', entry='h_scan_int', mode='INT', tiers=['quick'], defs=dict(XV_ABS_VEC=1, XV_E=2, XV_K=3, XV_L=2, XV_LA=1), unwindset=unw(2, 3, 2, 1, 'hp'), cls='shape-complete', timeout=900,
          note='INT: other threads rewrite any slot word and any entry state between any two atomic accesses of the scan'),
     dict(id='hp_dtor', entry='h_dtor', defs=dict(XV_ABS_VEC=1, XV_E=3, XV_K=3, XV_L=3, XV_LA=2), unwindset=unw(3, 3, 3, 2, 'hp'), cls='shape-complete', timeout=900),
     dict(id='hp_trigger', entry='h_trigger', cls='unbounded', note='all counter values < 2^60 / active-slot counts < 2^32; A, B as compiled (defaults 2, 100)'),
     dict(id='he_scan', entry='h_scan', defs=dict(XV_HE=1, XV_ABS_VEC=1, XV_E=3, XV_K=3, XV_L=3, XV_LA=2), unwindset=unw(3, 3, 3, 2, 'he'), cls='shape-complete', timeout=900),
-    dict(id='he_scan_int', entry='h_scan_int', mode='INT', defs=dict(XV_HE=1, XV_ABS_VEC=1, XV_E=3, XV_K=3, XV_L=3, XV_LA=2), unwindset=unw(3, 3, 3, 2, 'he'), cls='shape-complete', timeout=900),
+    dict(id='he_scan_int', entry='h_scan_int', mode='INT', tiers=['quick'], defs=dict(XV_HE=1, XV_ABS_VEC=1, XV_E=2, XV_K=3, XV_L=2, XV_LA=1), unwindset=unw(2, 3, 2, 1, 'he'), cls='shape-complete', timeout=900),
+    dict(id='hp_scan_int_3', entry='h_scan_int', mode='INT', tiers=['thorough'], defs=dict(XV_ABS_VEC=1, XV_E=3, XV_K=3, XV_L=3, XV_LA=2), unwindset=unw(3, 3, 3, 2, 'hp'), cls='shape-complete', timeout=3000),
+    dict(id='he_scan_int_3', entry='h_scan_int', mode='INT', tiers=['thorough'], defs=dict(XV_HE=1, XV_ABS_VEC=1, XV_E=3, XV_K=3, XV_L=3, XV_LA=2), unwindset=unw(3, 3, 3, 2, 'he'), cls='shape-complete', timeout=3000),
     dict(id='he_dtor', entry='h_dtor', defs=dict(XV_HE=1, XV_ABS_VEC=1, XV_E=3, XV_K=3, XV_L=3, XV_LA=2), unwindset=unw(3, 3, 3, 2, 'he'), cls='shape-complete', timeout=900),
     dict(id='he_trigger', entry='h_trigger', defs=dict(XV_HE=1), cls='unbounded'),
     # everything real in one piece (no stub for reclaim_nodes): cross-check of the composition, small shape
     dict(id='hp_scan_whole', entry='h_scan', defs=dict(XV_E=2, XV_K=2, XV_L=2, XV_LA=1), unwindset=unw(2, 2, 2, 1, 'hp'), cls='shape-complete', timeout=3000),
     dict(id='hp_dtor_whole', entry='h_dtor', defs=dict(XV_E=2, XV_K=2, XV_L=2, XV_LA=1), unwindset=unw(2, 2, 2, 1, 'hp'), cls='shape-complete', timeout=3000),
-    dict(id='he_scan_whole', entry='h_scan', defs=dict(XV_HE=1, XV_E=2, XV_K=2, XV_L=2, XV_LA=1), unwindset=unw(2, 2, 2, 1, 'he'), cls='shape-complete', timeout=3000),
+    dict(id='he_scan_whole', entry='h_scan', tiers=['thorough'], defs=dict(XV_HE=1, XV_E=2, XV_K=2, XV_L=2, XV_LA=1), unwindset=unw(2, 2, 2, 1, 'he'), cls='shape-complete', timeout=3000),
   ],
-  obligations={},
-  canaries=[],
+  obligations={
+    'hpscan.fence_first': dict(deciding=True, text='scan: a seq_cst fence precedes the first slot read, and every delete_self comes after the slot reads (C01 reclaim side)'),
+    'hpscan.adopt_before_gather': dict(deciding=True, text='scan: the abandoned nodes are taken over (one exchange) before the first slot is read, so every node that may be deleted was retired before the gathering started'),
+    'hpscan.gather.all_slots': dict(deciding=True, text='scan reads the state of every entry of the list (head loaded with acquire) and, for every entry seen active, every one of its K slots'),
+    'hpscan.gather.exact': dict(deciding=True, text='gather_protected_pointers / gather_protected_eras of a control block appends exactly the non-link slot words (HE: the eras they encode), in slot order, reading each slot once and leaving the rest of the vector alone'),
+    'hpscan.search_sorted': dict(deciding=True, text='std::binary_search / std::lower_bound are only called on a sorted range (their precondition): the vector is sorted (HE: and truncated after unique) between gathering and reclaim_nodes'),
+    'hpscan.spares_protected': dict(deciding=True, text='HP: delete_self(n) only if n is not among the non-link slot words read from entries that were active when looked at; a node whose address is in such a slot stays in the retire list exactly once (C01 reclaim side)'),
+    'hescan.spares_protected_interval': dict(deciding=True, text='HE: delete_self(n) only if no era read from a slot of an entry seen active lies in [construction_era, retirement_era]; otherwise the node stays in the retire list exactly once (C01 reclaim side)'),
+    'hpscan.skips_inactive': dict(deciding=True, text='a node is kept ONLY because of a slot word / era read from an ACTIVE entry: words in free or inactive entries never keep a node alive (C17: an exited thread does not prevent reclamation)'),
+    'hpscan.conserve': dict(deciding=True, text='HP scan / reclaim_nodes: every node of the retire list and of the adopted list is afterwards deleted exactly once or in the retire list exactly once; the list is a null-terminated chain, number_of_retired_nodes is its length; other nodes untouched (C02)'),
+    'hescan.conserve': dict(deciding=True, text='HE scan / reclaim_nodes: same conservation statement (C02)'),
+    'hpscan.dtor.hands_over_all': dict(deciding=True, text='~thread_data (HP and HE): every retired/adopted node is deleted exactly once or handed to the global abandoned list exactly once (release CAS), the thread keeps nothing; with an empty retire list nothing is scanned (C02)'),
+    'hpscan.dtor.releases_record': dict(deciding=True, text='~thread_data releases the control block: its state becomes free by a release store, the active-slot counter is reduced by K, no other record changes (C17)'),
+    'hpscan.retire.once_then_trigger': dict(deciding=True, text='guard_ptr::reclaim: guard reset, deleter stored, (HE: retirement_era = era_clock++ with release), node pushed exactly once, scan called iff the new count >= A*active+B and then after all of that'),
+  },
+  replays={'hpscan.spares_protected': dict(src='replay_scan.cpp'), 'hpscan.skips_inactive': dict(src='replay_scan.cpp'), 'hpscan.conserve': dict(src='replay_scan.cpp'),
+           'hescan.spares_protected_interval': dict(src='replay_scan.cpp', cxxflags=['-DREPLAY_HE']), 'hescan.conserve': dict(src='replay_scan.cpp', cxxflags=['-DREPLAY_HE'])},
+  canaries=['gather.value', 'gather.link', 'gather.full', 'reclaim.spared', 'reclaim.deleted', 'reclaim.full', 'reclaim.empty_vector',
+            'scan.own_spared', 'scan.adopted_spared', 'scan.own_deleted', 'scan.adopted_deleted', 'scan.inactive_entry_ignored', 'scan.outside', 'scan.full_all_spared', 'scan.no_entries',
+            'scan_int.deleted', 'scan_int.spared', 'dtor.handed_over', 'dtor.deleted', 'dtor.nothing_retired', 'dtor.released', 'dtor.no_record', 'trigger.scan', 'trigger.no_scan'],
 )
